@@ -2,7 +2,10 @@
 //!
 //! Case:   (case VSCHEMA DOC OPNAME VARS TEXT)
 //!   VSCHEMA  description of the schema read back from the REAL registry (through
-//!            ExtensionContext::schema_env): types, fields, arguments, input objects, directives
+//!            ExtensionContext::schema_env): types, fields, arguments, input objects, directives.
+//!            Two variants of the static schema exist: the plain one, and one that additionally
+//!            registers a custom field directive called `ifdef`; the variant a case runs against is
+//!            the one whose dump the case carries (`run` looks for a `(dirdef "ifdef" …)` entry).
 //!   DOC      the document as a tree (printed by the harness to TEXT, which is what is executed)
 //!   OPNAME   none | "name";  VARS supplied variable values
 //! Output: (out STAGE (errs (MSG NLOCS)…) RAN (later MSG…))
@@ -73,18 +76,22 @@ impl Extension for ObsE {
     }
 }
 
-fn build(obs: Arc<Mutex<Obs>>) -> Schema<Query, Mutation, Subscription> {
-    Schema::build(Query, Mutation, Subscription)
-        .directive(concat)
-        .directive(tagged)
-        .validation_mode(ValidationMode::Strict)
-        .extension(ObsF(obs))
-        .finish()
+fn build(obs: Arc<Mutex<Obs>>, with_ifdef: bool) -> Schema<Query, Mutation, Subscription> {
+    let mut b = Schema::build(Query, Mutation, Subscription).directive(concat).directive(tagged);
+    if with_ifdef {
+        b = b.directive(ifdef);
+    }
+    b.validation_mode(ValidationMode::Strict).extension(ObsF(obs)).finish()
 }
 
-fn schema_sexp() -> Sexp {
+/// does the schema description of a case contain a directive definition called `ifdef`?
+fn case_has_ifdef(vschema: &Sexp) -> bool {
+    vschema.args().get(1).map(|d| d.args().iter().any(|x| x.args().first().and_then(|n| n.as_str()) == Some("ifdef"))).unwrap_or(false)
+}
+
+fn schema_sexp(with_ifdef: bool) -> Sexp {
     let obs = Arc::new(Mutex::new(Obs { want_dump: true, ..Default::default() }));
-    let schema = build(obs.clone());
+    let schema = build(obs.clone(), with_ifdef);
     let _ = spin_on(schema.execute("{ __typename }"));
     obs.lock().unwrap().dump.take().expect("registry dump")
 }
@@ -98,10 +105,12 @@ fn errs_sexp(es: &[(String, usize)]) -> Sexp {
 
 fn gen_case(rng: &mut Rng, i: usize, _o: &Opts, dist: &mut Dist) -> Sexp {
     thread_local! {
-        static SD: (Sexp, SchemaD) = { let s = schema_sexp(); let d = SchemaD::from_sexp(&s); (s, d) };
+        static SD: [(Sexp, SchemaD); 2] = [false, true].map(|v| { let s = schema_sexp(v); let d = SchemaD::from_sexp(&s); (s, d) });
     }
-    SD.with(|(sx, sd)| {
-        let (doc, opname, vars) = gen_request(sd, rng, i, dist);
+    SD.with(|sds| {
+        let (doc, opname, vars, variant) = gen_request(&sds[0].1, &sds[1].1, rng, i, dist);
+        let sx = &sds[variant as usize].0;
+        debug_assert_eq!(case_has_ifdef(sx), variant);
         let text = print_doc(&doc);
         node(
             "case",
@@ -116,7 +125,9 @@ fn run(case: &Sexp, dist: &mut Dist) -> Sexp {
     let vars = vars_from_sexp(&a[3]);
     let text = a[4].as_str().unwrap();
     let obs = Arc::new(Mutex::new(Obs::default()));
-    let schema = build(obs.clone());
+    let with_ifdef = case_has_ifdef(&a[0]);
+    dist.hit(if with_ifdef { "schema_with_ifdef_directive" } else { "schema_plain" });
+    let schema = build(obs.clone(), with_ifdef);
     let mut req = Request::new(text);
     if let Some(n) = &opname {
         req = req.operation_name(n.clone());
